@@ -261,9 +261,11 @@ def _producer_faults(case, thorough):
     """merge / coarsen: faults are planted in the INPUT coolers"""
     inputs = case["inputs"]
     out = [{"kind": "none"}]
+    single = case["producer"] == "merge" and len(inputs) == 1
     for r in range(len(inputs[0])):
         out.append({"kind": "agg_boom", "rec": r})
-        out.append({"kind": "overflow", "rec": r})
+        if not single:
+            out.append({"kind": "overflow", "rec": r})
         if case["producer"] == "merge":
             out.append({"kind": "bad_input", "rec": r, "what": "excess"})
             if case["symm"]:
@@ -272,7 +274,7 @@ def _producer_faults(case, thorough):
             # coarsen: a lower-triangle record in a symmetric-upper SOURCE (it stays lower after pooling unless both
             # ends fall into one coarse bin; the model judges the chunks the coarsener really yields)
             out.append({"kind": "bad_input", "rec": r, "what": "tril"})
-    if case["producer"] == "merge":
+    if case["producer"] == "merge" and not single:
         out.append({"kind": "incompatible"})
     return out
 
@@ -308,7 +310,7 @@ def _faulty_inputs(case, fault):
                 return None  # no partner in the block: this fault does not exist for this record
             part[2] = 2 ** 31 - 1
     elif kind == "bad_input":
-        which = 1 if case["producer"] == "merge" else 0
+        which = 1 if (case["producer"] == "merge" and len(inputs) > 1) else 0
         r = inputs[which][fault["rec"] % len(inputs[which])] if inputs[which] else None
         if r is None:
             return None
@@ -749,14 +751,14 @@ def _producer_case(rng, producer, dest, symm, thorough):
     if producer == "merge":
         n = rng.randint(2, 5)
         layout = gen.split_layout(rng, n)
-        k = rng.randint(2, 3)
+        k = rng.choice([1, 2, 2, 3])          # a single input is a merge too (and must be validated like one)
         inputs = []
         for _ in range(k):
             px = gen.matrix_kinds(rng, n, symm, rng.choice(["random", "dense-random", "gaps", "onerow"]))
             inputs.append([[i, j, 1 + (v % 50)] for i, j, v in px])
         if not inputs[0]:
             inputs[0] = [[0, n - 1, 3]]
-        if not inputs[1]:
+        if k > 1 and not inputs[1]:
             inputs[1] = [[0, 0, 2]]
     else:
         n = rng.randint(3, 6)
@@ -781,6 +783,9 @@ CORPUS = [
     {"producer": "ordered", "dest": "root", "symm": False, "n": 2, "layout": [1, 1], "chunks": [[[1, 0, 4]]]},
     {"producer": "unordered", "dest": "newgroup", "symm": True, "n": 3, "layout": [3], "chunks": [[[1, 2, 2], [2, 2, 3]], [[0, 0, 1], [0, 1, 5]]]},
     {"producer": "unordered", "dest": "newfile", "mode": "a", "symm": True, "n": 2, "layout": [2], "chunks": [[], [[0, 1, 1]]]},
+    # a merge of ONE input (seeded change C13-9: a copy shortcut would bypass the validator)
+    {"producer": "merge", "dest": "newfile", "mode": "w", "symm": True, "n": 3, "layout": [3], "inputs": [[[0, 1, 2], [1, 2, 3]]]},
+    {"producer": "merge", "dest": "newgroup", "symm": False, "n": 3, "layout": [2, 1], "inputs": [[[0, 1, 2], [2, 0, 3]]]},
 ]
 
 
